@@ -40,7 +40,12 @@ class C08(Prop):
     level_text = ("Coq theorems over an executable transcription of set/get/shift_solution_values: "
                   "for every value type, depth d>=1 and every history of index-0 writes, reads and "
                   "depth-d shifts the stored slot equals the first d entries of the history view and "
-                  "every call answers as the window specification says (C08_window); reads are pure, "
+                  "every call answers as the window specification says (C08_window); for shifts whose depth is "
+                  "arbitrary and changes from call to call (any max_index >= 0 or None) the slot stays a "
+                  "contiguous dictionary equal to the abstract window wrun (C08_contiguous_any_depths), "
+                  "indices below the smallest depth used hold the i-th most recent value "
+                  "(C08_window_varying_depths) and a shift leaves indices >= its depth untouched "
+                  "(C08_shift_leaves_deep_indices); reads are pure, "
                   "additive writes to empty slots are rejected, overwrites are exact map updates (any "
                   "state/index). The model is tied to the code on every run by executing both on "
                   "random histories (incl. arbitrary indices, negative indices, non-contiguous keys, "
@@ -54,7 +59,7 @@ class C08(Prop):
                   "one-variable system.")
     technique = "Coq proof (window refinement by induction over histories) + vm_compute execution correspondence"
     rule = ("random histories of set/add/get/shift on one (location,name) slot, through the pp.*_solution_values helpers or the EquationSystem wrappers (one variable), plus 1/8 multi-slot cases: selective set/add/shift/get on 4 (name, grid) variables of one fractured-domain EquationSystem, every slot compared with its own window; 60% "
-            "'disciplined' (writes at index 0, fixed depth), 40% arbitrary indices incl. "
+            "'disciplined' (writes at index 0; fixed depth, or for a third of them a depth that changes from shift to shift but never drops below d, checked by the oracle against the history view below d), 40% arbitrary indices incl. "
             "negative, non-contiguous keys, changing depths; every array handed to or "
             "returned by the implementation is overwritten afterwards (aliasing probe); "
             "non-trivial = at least one shift and one write; distinct by (case, output)")
@@ -81,6 +86,9 @@ class C08(Prop):
             ivec = lambda: [4 * rng.randint(-50, 50) for _ in range(size)]
             if rng.random() < 0.6:
                 d = rng.randint(1, 5)
+                # a third of the disciplined histories change the depth from shift to shift
+                # (never below d): C08_window_varying_depths says indices < d stay fresh
+                varying = rng.random() < 0.35
                 cur_int = False
                 int_phase = rng.random() < 0.4  # start with integer-dtype writes
                 for _ in range(nops):
@@ -102,10 +110,12 @@ class C08(Prop):
                         else:
                             ops.append(["add", 0, vec()])
                     elif r < 0.8:
-                        ops.append(["shift", d])
+                        ops.append(["shift", rng.choice([d, d, d + 1, d + 2, d + 4, None])
+                                    if varying else d])
                     else:
-                        ops.append(["get", rng.randint(0, d)])
-                yield {"size": size, "loc": loc, "via": via, "ops": ops, "disciplined": d}
+                        ops.append(["get", rng.randint(0, d + (2 if varying else 0))])
+                yield {"size": size, "loc": loc, "via": via, "ops": ops, "disciplined": d,
+                       "varying": varying}
             else:
                 for _ in range(nops):
                     r = rng.random()
@@ -327,11 +337,15 @@ class C08(Prop):
                     return f"shift answered {out}"
             else:
                 i = o[1]
+                if case.get("varying") and i >= d:
+                    continue  # beyond the smallest depth used: stale values are legitimate
                 exp = ["val", h[i]] if i < min(d, len(h)) else ["err", "KeyErr"]
                 if out != exp:
                     return f"read at index {i} returned {out}, window says {exp}"
         exp = [[i, v] for i, v in enumerate(h[:d])]
         got = res["dump"] or []
+        if case.get("varying"):
+            got = [kv for kv in got if kv[0] < d]
         if got != exp:
             return f"stored window {got} differs from the {d} most recent values {exp}"
         return None
